@@ -214,6 +214,20 @@ func (w *Workspace) GetResolved() *include.ResolvedJournal {
 	return w.resolved
 }
 
+// Contains reports whether path is the root journal or a file of its include tree.
+func (w *Workspace) Contains(path string) bool {
+	w.mu.RLock()
+	defer w.mu.RUnlock()
+	if path == w.rootJournalPath {
+		return true
+	}
+	if w.resolved == nil {
+		return false
+	}
+	_, ok := w.resolved.Files[path]
+	return ok
+}
+
 func (w *Workspace) IndexSnapshot() IndexSnapshot {
 	w.mu.RLock()
 	defer w.mu.RUnlock()
